@@ -232,6 +232,7 @@ func c03Variety(c *hx.Ctx, shard int) {
 	for i, vc := range keys.Variety(1) {
 		items = append(items, c03Signer{vc, 1, "k1, certificate " + keys.Kinds()[i].Name})
 	}
+	items = append(items, c03Signer{keys.C(5), 5, "k5 (2050-bit modulus)"}, c03Signer{keys.C(6), 6, "k6 (2047-bit modulus)"})
 	plate := pkix.Name{CommonName: "verif rollover", Organization: []string{"verif"}}
 	rx := keys.Cert(plate, big.NewInt(0x7777), &keys.K(1).PublicKey, keys.K(1))
 	ry := keys.Cert(plate, big.NewInt(0x7777), &keys.K(2).PublicKey, keys.K(2))
